@@ -236,7 +236,7 @@ def main():
                      | set(getattr(mod, "TRUSTED", [])) | {"pyvc VC generator (encoding of Python semantics, DESIGN.md 2.3)", "z3 5.1.0 / cvc5 1.0.3"})
     ev = {
         "property_id": prop, "tier": tier, "seed": seed,
-        "level": "proof" if all_proved else "other",
+        "level": (getattr(mod, "LEVEL", None) or "proof") if all_proved else "other",
         "coverage": {
             "obligations": n_ob - n_known, "discharged": len(discharged), "refuted": len(refuted) - n_known, "undecided": len(undecided),
             "refuted_known_findings": n_known, "obligations_generated_total": n_ob,
